@@ -7,7 +7,7 @@ tied to in C01). Oracle: Go interpreter outcome == Go VM outcome (output, comple
 fatal kind + message) on programs of the shared language.
 """
 from gen import progs, families, nesting
-from vlib import core, progstream
+from vlib import core, progstream, known
 from props.C01 import CORPUS
 
 MODULES = ["HmsProofs.C04"]
@@ -57,9 +57,7 @@ def run(ctx):
     if not st["harness"] or not st["dump"] or not st["model"]:
         ctx.violation({"kind": "build", "log": st.get("log", "")[-3000:]}, "harness, table dump or Lean model no longer builds", no_input=True)
         return
-    for e in core.load_known("C04"):
-        if e.get("status") == "open":
-            ctx.known(e["id"], e["what"])
+    known.replay_open(ctx, "C04")
     judge(ctx, CORPUS, "C04 corpus")
     known_srcs = {e["witness"]["main"] for e in core.load_known("C04") if e.get("status") == "open" and e.get("witness", {}).get("kind") == "prog"}
     for fam, fsrcs in families.all_families().items():
